@@ -491,6 +491,19 @@ func c14ClientHeader(c *core.Ctx, serverKey string) {
 		return
 	}
 	name := core.FuncName(dec)
+	// the decoder may hand the reply to helpers of the package (a split decoder): the function that parses the
+	// status header is then the one analysed, and what it returns to the decoder counts as a use of the code
+	outer := dec
+	for _, h := range core.HelperCallsOf(dec) {
+		if !core.PkgIs(h.Callee, "httpgrpc") {
+			continue
+		}
+		if len(core.CallsIn(h.Callee, func(_ *ssa.Call, ci core.CallInfo) bool {
+			return ci.Is("strconv.ParseInt") || ci.Is("strconv.Atoi") || ci.Is("strconv.ParseUint")
+		})) > 0 {
+			dec = h.Callee
+		}
+	}
 	// header key agreement
 	var getKey string
 	for _, gc := range core.CallsIn(dec, func(call *ssa.Call, ci core.CallInfo) bool { return ci.Is("net/http.Header.Get") }) {
@@ -588,6 +601,13 @@ func c14ClientHeader(c *core.Ctx, serverKey string) {
 				checkUse(st.Val, "spb.Status.Code")
 			}
 		}
+		if r, ok := in.(*ssa.Return); ok && dec != outer {
+			for _, res := range r.Results {
+				if core.TypeStr(res.Type()) == codesPkg+".Code" {
+					checkUse(res, "the code returned to the decoder")
+				}
+			}
+		}
 		if iff, ok := in.(*ssa.If); ok {
 			f := core.CondFact(iff.Cond, true)
 			if f.X != nil && core.TypeStr(f.X.Type()) == codesPkg+".Code" {
@@ -601,6 +621,29 @@ func c14ClientHeader(c *core.Ctx, serverKey string) {
 		okAll = false
 		why = "no construction of the returned status from a code found"
 	}
+	if dec != outer {
+		core.Instrs(outer, func(in ssa.Instruction) {
+			var codeArg ssa.Value
+			if call, isCall := in.(*ssa.Call); isCall && core.InfoOf(&call.Call).Is(statusPkg+".New") {
+				codeArg = call.Call.Args[0]
+			}
+			if st, ok := in.(*ssa.Store); ok {
+				if base, f, isF := core.FieldOf(st.Addr); isF && f == "Code" && strings.HasSuffix(core.QualNamedOf(base.Type()), "rpc/status.Status") {
+					codeArg = st.Val
+				}
+			}
+			if codeArg == nil {
+				return
+			}
+			if !core.AllOrigins(codeArg, func(o ssa.Value) bool {
+				cr, _, ok := core.CallResult(o)
+				return ok && cr.Call.StaticCallee() == dec
+			}) {
+				okAll = false
+				why = "the decoder builds the status from a code other than the one its parsing helper returned"
+			}
+		})
+	}
 	c.Check(okAll, name+":parsed-wins", parse.Pos(), why, why)
 	c.Check(fallbackBad == "", name+":fallback-for-every-status", parse.Pos(), "without a usable status header the code is the fallback table applied to reply.StatusCode, unconditionally (the table is total: C14/R2)",
 		fallbackBad+": a reply without the status header (a proxy's 302, a 1xx) would be classified without the fallback table — possibly as OK")
@@ -611,7 +654,7 @@ func c14ClientHeader(c *core.Ctx, serverKey string) {
 	c.Check(guarded, name+":parse-err-guard", parse.Pos(), "parsed code is used only on the parse-error == nil edge", "parsed code used without the parse error being nil")
 	// details header: same global on both sides
 	detailsClient, detailsServer := "", ""
-	core.Instrs(dec, func(in ssa.Instruction) {
+	core.Instrs(outer, func(in ssa.Instruction) {
 		if g, ok := core.GlobalLoad(valueOfInstr(in)); ok && strings.Contains(strings.ToLower(g), "detail") {
 			detailsClient = g
 		}
